@@ -175,6 +175,16 @@ def run_pair(case):
       return bad("algebra:add:commutative", "f+g and g+f differ", None, None, nt)
     if not lib_rf(mk(fs) * mk(gs)).same(lib_rf(mk(gs) * mk(fs))):
       return bad("algebra:mul:commutative", "f*g and g*f differ", None, None, nt)
+    # one pair of filter OBJECTS through every operator in sequence: results as before, and the
+    # operands themselves unchanged afterwards
+    for name, h, ref in (("add", f + g, rF + rG), ("sub", f - g, rF - rG), ("mul", f * g, rF * rG),
+                         ("div", f / g, rF / rG), ("add", g + f, rF + rG), ("neg", -f, RF.const(0) - rF),
+                         ("pow2", f ** 2, rF * rF), ("scale", 3 * f, RF.const(3) * rF)):
+      if not lib_rf(h).same(ref):
+        return bad("algebra:%s:reused-operands" % name, "operator result wrong when the operand objects "
+                   "have been used in other operations before", {"num": ref.num, "den": ref.den}, str(h), nt)
+    if not lib_rf(f).same(rF) or not lib_rf(g).same(rG) or not eqs(run_sig(f, x), yf) or not eqs(run_sig(g, x), yg):
+      return bad("algebra:operand-mutated", "filter arithmetic modified one of its operands", None, [str(f), str(g)], nt)
     q = mk(fs) / mk(fs)
     if not lib_rf(q).same(RF({0: 1})):
       return bad("algebra:div:self", "f/f is not 1", 1, str(q), nt)
